@@ -213,7 +213,7 @@ func (v *visitor) BinaryNode(node *ast.BinaryNode) reflect.Type {
 		if isString(l) && isStruct(r) {
 			return boolType
 		}
-		if isMap(r) {
+		if isMap(r) && isKeyFor(r, l) {
 			return boolType
 		}
 		if isArray(r) {
